@@ -58,6 +58,7 @@ def justified : List (String × String × String) := [
   ("Relay.ServeHTTP", "errs <- fmt.Errorf(\"serveWriteLoop terminated: %w\", err)", "buffered"),
   ("Relay.ServeHTTP", "errs <- fmt.Errorf(\"handler terminated: %w\", err)", "buffered"),
   ("Relay.ServeHTTP", "for range errs", "closed"),
+  ("Relay.serveWriteLoop", "done <- relay.sendPingWithTimeout(ctx, conn)", "buffered"),
   ("newBufCh", "ret <- item", "buffered"),
   ("simpleSQLiteHandler.serveClientReqMsg", "smsgCh <- mocrelay.NewServerEOSEMsg(msg.SubscriptionID)", "buffered"),
   ("simpleSQLiteHandler.serveClientReqMsg", "smsgCh <- mocrelay.NewServerEventMsg(msg.SubscriptionID, event)", "buffered"),
